@@ -168,6 +168,36 @@ class Seq:
         raise U(f"method {attr} on symbolic sequence", node)
 
 
+class StarSeq:
+    """`*seq` of a symbolic-length sequence in a call"""
+
+    def __init__(self, seq):
+        self.seq = seq
+
+
+class Unzipped:
+    """list(zip(*seq_of_k_tuples)): k columns; empty list (falsy) when the sequence is empty."""
+
+    def __init__(self, seq, k):
+        self.seq, self.k = seq, k
+
+    def sx_truth(self, ex):
+        return self.seq.n > 0
+
+    def sx_getitem(self, ex, idx, node):
+        if isinstance(idx, int) and 0 <= idx < self.k:
+            ex.oblige(f"pre({ex.site('index')}).nonempty", self.seq.n > 0, "index", node)
+            s = self.seq
+            return Seq(s.n, lambda j, c=idx: s.item(j)[c], "tuple")
+        raise U("index into unzipped sequence", node)
+
+    def sx_seq(self, ex):
+        return self
+
+    def sx_iter(self, ex):
+        return None
+
+
 class SymKwargs:
     """**kwargs of symbolic content: n distinct keys of sort `ksort` with values of sort `vsort`."""
 
@@ -481,6 +511,7 @@ def filtered_seq(ex, seq, item, keep, node):
                                 pat=lambda t: cnt(t)))
     out = Seq(M, lambda j: item(sel(j)))
     out.sel, out.selidx, out.src_n, out.keep = sel, cnt, seq.n, keep
+    ex.last_filter = out
     return out
 
 
